@@ -83,7 +83,22 @@ def patch_check(kind, case, rec):
         rec.require("post-processing-leaves-the-quadrature-unchanged", np.array_equal(q_before[0], np.asarray(r0.quadrature.points, float))
                     and np.array_equal(q_before[1], np.asarray(r0.quadrature.weights, float)))
         rec.label("after-extrapolate-on-another-region")
-    region = gm.region(mesh, info)
+    if case["mesh"].get("cseed", 0) % 3 == 2:
+        # the region existed before the mesh got its final point positions: points moved in place, then a plain region.reload()
+        final = np.array(mesh.points)
+        r_ = np.random.default_rng(case["mesh"].get("cseed", 0))
+        pre = final + np.where(info["boundary"][:, None], 0.0, 0.15 * info["h"] * r_.uniform(-1, 1, final.shape))
+        mesh.points[:] = pre
+        import warnings
+
+        with warnings.catch_warnings():
+            warnings.simplefilter("ignore")
+            region = gm.region(mesh, info)
+        mesh.points[:] = final
+        region.reload()
+        rec.label("region-reloaded-after-in-place-point-update")
+    else:
+        region = gm.region(mesh, info)
     X = np.array(mesh.points)
     ps = dim == 2
     fld = fem.FieldPlaneStrain(region, dim=2) if ps else fem.Field(region, dim=3)
